@@ -111,6 +111,19 @@ def corpus(rng, n):
             out.append(("func-unknown", "nosuchfunc(" + text + ")"))
         elif r < 0.80:
             out.append(("func-count", "contains(" + text + ")"))
+        elif r < 0.92:
+            # TWO error causes in one input, in either order: whichever is reported, nothing
+            # of the other may survive on the instance
+            first = rng.choice([("func-unknown", "nosuchfunc(" + text + ")"),
+                                ("func-count", "contains(" + text + ")"),
+                                ("func-count0", "length() eq 1 and " + text)])
+            tail = rng.choice([("tok", " and name eq #"), ("tok-open-string", " and name eq 'abc"),
+                               ("syntax", " and )"), ("eof", " and"), ("second-func", " and nosuch2(1)"),
+                               ("tok-far", " and " + text + " and x eq #")])
+            out.append(("two-errors:%s+%s" % (first[0], tail[0]), first[1] + tail[1]))
+            if rng.random() < 0.5:
+                out.append(("two-errors:%s+%s:reversed" % (first[0], tail[0]),
+                            "# eq 1 and " + first[1]))
     return out[:n]
 
 
